@@ -47,6 +47,9 @@ class C16(PropBase):
             st = self.stream(rng, rng.randrange(40, 120))
             r = c % 6
             flt = None if r == 0 else universe if r == 1 else [rng.choice(universe)] if r == 2 else rng.sample(universe, rng.randrange(1, 9))
+            if c % 7 == 3 and flt is not None:
+                # numbers that name no downlink format (>= 32) are legal -f values and match nothing
+                flt = list(flt) + rng.sample([32, 36, 49, 53, 64, 81, 4294967295], 2)
             count = (c % 5) != 4
             u = bool(c % 2)
             lines = [l for l, _ in st]
